@@ -344,6 +344,8 @@ def _work_cases(job):
             seen.add(key)
             if isinstance(v.get("info"), dict) and "defined" in v["info"]:
                 v["model"] = dict(v["model"], _bits={sc: sc in v["info"]["defined"] for sc in ("data", "builtins", "locals", "globals", "extra", "none_winner")})
+            if isinstance(v.get("info"), dict) and isinstance(v["info"].get("_replay"), dict):
+                v["model"] = dict(v["model"], **v["info"]["_replay"])  # decisions of the path (history, ...)
             rep, detail = replay_concrete(harness, case, v["model"], v["label"])
             sig = mod.signature(case, v) if hasattr(mod, "signature") else {"case": repr(case), "what": v["label"]}
             out["violations"].append(
